@@ -7,6 +7,7 @@ mod gen;
 mod refmodel;
 mod report;
 mod runner;
+mod xrun;
 
 mod cmpx;
 mod c01;
@@ -14,6 +15,10 @@ mod c02;
 mod c04;
 mod c05;
 mod c06;
+mod c07;
+mod c08;
+mod c09;
+mod c10;
 
 use report::{machinery, Report, Tier};
 
@@ -62,6 +67,10 @@ fn main() {
         "C04" => c04::run(&ctx, &mut rep),
         "C05" => c05::run(&ctx, &mut rep),
         "C06" => c06::run(&ctx, &mut rep),
+        "C07" => c07::run(&ctx, &mut rep),
+        "C08" => c08::run(&ctx, &mut rep),
+        "C09" => c09::run(&ctx, &mut rep),
+        "C10" => c10::run(&ctx, &mut rep),
         _ => machinery(&format!("no check registered for {id}")),
     }
     rep.finish();
